@@ -129,6 +129,7 @@ func runOpPair(a *args, res *result) {
 		if a.prop != "C08" {
 			tripleSweep(res, kind, stuckCh)
 			configPair(res, kind, stuckCh)
+			tickClock(res, kind)
 		}
 	}
 	vshim.SetTokenMode(false)
@@ -156,6 +157,7 @@ func runPair(N int64, execA, execB func() *hev, stuckCh chan string) (ha, hb *he
 		return ha, nil, false, ""
 	}
 	vshim.ArmSpinNotify()
+	vshim.SetStepBudget(1 << 22) // B either returns, or waits for A (spin notification), or is stuck
 	go func() { bdone <- execB() }()
 	select {
 	case hb = <-bdone:
@@ -747,6 +749,76 @@ func configPair(res *result, kind string, stuckCh chan string) {
 					bad("HasEvictedCallback disagrees with the callback that fires", fmt.Sprintf("HasEvictedCallback()=%v, Delete reported to callback #%d", c.HasEvictedCallback(), gotCb))
 					return
 				}
+			}
+		}
+	}
+}
+
+// tickClock: with the real clock two readings inside one call differ. Here
+// every reading advances the virtual clock by one tick while ONE call runs on an
+// entry that expires 0..8 ticks after the call starts, so that the expiry falls
+// before, between or after the call's readings. The call's result and the state
+// it leaves (read back later, clock frozen) must be explained by one decision
+// instant n1 and one instant n2 from which a new expiry was computed, both within
+// the call. A call that decides "live" with one reading and "expired" with
+// another (runs the user function yet reports loaded, stores yet returns the old
+// value, ...) has no such explanation.
+func tickClock(res *result, kind string) {
+	def := time.Duration(30 * time.Minute)
+	for _, A := range cachePairOps() {
+		for j := int64(0); j <= 8; j++ {
+			vshim.SetVNow(epoch)
+			c := newCache(cacheSpec{Flavor: kind, Ctor: "New", OptMask: 1 | 2, DefExp: def, Interval: 0, NKeys: 64})
+			for k := 10; k < 14; k++ {
+				c.Set(k, nextVal(k), time.Hour)
+			}
+			vOld := nextVal(opKey)
+			c.Set(opKey, vOld, time.Duration(100+j))
+			e0 := int64(epoch) + 100 + j
+			before := int64(epoch) + 100
+			vshim.SetVNow(before)
+			wa := A.w
+			wa.k, wa.v = opKey, nextVal(opKey)
+			logCase("oppair tick-clock %s A=%s j=%d", kind, A.name, j)
+			res.Evaluations++
+			vshim.SetAutoTick(1)
+			h := execCacheOp(c, &wa, 0, before, def)
+			vshim.SetAutoTick(0)
+			after := vshim.VNow()
+			T := after + 1000
+			vshim.SetVNow(T)
+			f := execCacheOp(c, &wop{kind: cGetWithExpiration, k: opKey}, 2, T, def)
+			res.count("tick_clock_scenarios", 1)
+			if after-before >= 2 {
+				fp := newFP()
+				fp.addStr("tick-clock" + kind + A.name)
+				fp.add(uint64(j))
+				res.nontrivial(fp.sum())
+			}
+			explained := false
+			rawTTL := h.OutE - before // GetWithTTL: the duration reported (OutE was computed from `before`)
+			for n1 := before; n1 <= after && !explained; n1++ {
+				for n2 := before; n2 <= after && !explained; n2++ {
+					hh := *h
+					hh.Now = n1
+					hh.E = expOf(wa.d, def, n2)
+					if hh.Kind == cGetWithTTL && hh.OutOK && h.OutE != 0 {
+						hh.OutE = n2 + rawTTL // the reading the remaining time was computed from
+					}
+					ok1, ns := stepSlot(slot{P: true, V: vOld, E: e0}, &hh)
+					if !ok1 {
+						continue
+					}
+					if ok2, _ := stepSlot(ns, f); ok2 {
+						explained = true
+					}
+				}
+			}
+			if !explained {
+				res.violate(violation{Class: "oppair", Sig: fmt.Sprintf("%s while the clock passes the entry's expiry: result and resulting state are explained by no single decision instant", A.name),
+					Msg:  fmt.Sprintf("%s: entry expires at +%d, clock read at +%d..+%d during the call: %s; afterwards (+%d): %s", kind, e0-before, 0, after-before-1, h, T-before, f),
+					Case: map[string]any{"kind": kind, "A": A.name, "j": j}})
+				return
 			}
 		}
 	}
